@@ -32,7 +32,22 @@ Proof. exact txpk_ipol_present. Qed.
 (* the data delay is 1 and the join-accept delay 5 in the encoder model (Model/Server.v encoder_data /
    encoder_join, compared with the code on every server history) *)
 
+(* ... "plus one second for data (five seconds for a join-accept)": on the pipeline side the delay handed to the gateway
+   follows the type of the frame that leaves, not the type of the uplink whose handler sends it. Any pool of join and
+   uplink handlers of a device (any frames), interleaved operation by operation in EVERY order and cut anywhere, from
+   any state whose buffer entry holds a three-bit message type: every downlink that leaves carries delay 5 when its
+   MHDR says join-accept and delay 1 otherwise (an uplink's handler can collect the join-accept a concurrent join left
+   in the device's buffer entry - the forced-schedule correspondence runs exactly that on the real pipeline). *)
+From Lospan Require Import Model.FrameTypes Model.Frame Model.Store Model.Server Model.Steps Proof.LocalProof Proof.DelayProof.
+Theorem C17_delay_follows_the_frame_type :
+  forall (E D : list N -> list N -> list N) apps ps sched fuel st,
+    Forall (handler E D) ps -> fb_small st ->
+    Forall (fun d => dl_rx1delay d = if (hd 0 (dl_raw d) / 32 =? 1)%N then 5%N else 1%N)
+           (downs (snd (interleaveN apps sched fuel st ps []))).
+Proof. exact delay_follows_the_frame_type. Qed.
+
 Print Assumptions C17_port_of_last_pull_data.
 Print Assumptions C17_txpk.
 Print Assumptions C17_keys_always_present.
 Print Assumptions C17_ipol_present.
+Print Assumptions C17_delay_follows_the_frame_type.
